@@ -61,7 +61,7 @@ def to_obj(a):
         if a.dtype == object:
             return a.view(np.ndarray)
         return a.astype(object)
-    if is_sym(a):
+    if is_sym(a) or isinstance(a, SymRatio):
         out = np.empty((), dtype=object)
         out[()] = a
         return out
@@ -90,7 +90,8 @@ def concrete_or_none(a, dtype=None):
 
 
 def elementwise(op, *args):
-    arrs = [to_obj(a) if isinstance(a, (np.ndarray, list, tuple)) else a for a in args]
+    arrs = [to_obj(a) if (isinstance(a, (np.ndarray, list, tuple)) or is_sym(a) or isinstance(a, SymRatio)) else a
+            for a in args]
     f = np.frompyfunc(op, len(args), 1)
     return wrap(f(*arrs))
 
@@ -379,7 +380,10 @@ def _close_cell(rtol, atol):
                     bmag = math.hypot(float(bre.as_fraction()), float(bim.as_fraction()))
                 tol = sym._zr(atol + rtol * bmag)
                 return sym._wrapb(lhs <= tol * tol)
-            raise Unsupported("isclose with rtol on symbolic complex reference")
+            # |d| <= atol + rtol*|b| with m = |b| a fresh non-negative root (exact, QF_NRA)
+            m = SymReal(bb.re * bb.re + bb.im * bb.im).sqrt()
+            tol = sym._zr(atol) + sym._zr(rtol) * m.e
+            return sym._wrapb(z3.And(tol >= 0, lhs <= tol * tol))
         d = SymReal.lift(a) - SymReal.lift(b)
         ab = abs(SymReal.lift(b))
         tol = sym._zr(atol) + sym._zr(rtol) * ab.e
@@ -673,6 +677,15 @@ class RandomProxy:
         return sym.b_ite(o == 1, vals[1], vals[0])
 
 
+def _scalar_aware(real_fn, cell_fn):
+    def f(*args, **kwargs):
+        if any(is_sym(a) or isinstance(a, SymRatio) for a in args):
+            return elementwise(cell_fn, *args)
+        return real_fn(*args, **kwargs)
+
+    return f
+
+
 class NpProxy:
     def __init__(self):
         self.random = RandomProxy()
@@ -681,6 +694,23 @@ class NpProxy:
         self.eye = sym_eye
         self.identity = lambda n, dtype=None: sym_eye(n)
         self.array = sym_array
+        # numpy functions applied to symbolic SCALARS (arrays dispatch through SymArray themselves)
+        self.sqrt = _scalar_aware(np.sqrt, _sqrt_cell)
+        self.abs = self.absolute = _scalar_aware(np.abs, _abs_cell)
+        self.real = _scalar_aware(np.real, _real_cell)
+        self.imag = _scalar_aware(np.imag, _imag_cell)
+        self.conj = self.conjugate = _scalar_aware(np.conjugate, _conj_cell)
+        self.equal = _scalar_aware(np.equal, _eq_cell)
+
+    def isclose(self, a, b, rtol=1e-05, atol=1e-08, **k):
+        if has_sym(a) or has_sym(b):
+            return _isclose(a, b, rtol, atol)
+        return np.isclose(a, b, rtol=rtol, atol=atol, **k)
+
+    def allclose(self, a, b, rtol=1e-05, atol=1e-08, **k):
+        if has_sym(a) or has_sym(b):
+            return _allclose(a, b, rtol, atol)
+        return np.allclose(a, b, rtol=rtol, atol=atol, **k)
 
     def __getattr__(self, name):
         return getattr(np, name)
